@@ -3,6 +3,7 @@
 // via glibc's correctly rounded "%.*e" candidates (exact expansion only for ties), 33-byte write bound.
 #include <cmath>
 #include <cstring>
+#include <xmmintrin.h>
 #include <memory>
 #include <set>
 
@@ -81,6 +82,8 @@ static std::string trimmed(std::string D) {
   return D;
 }
 
+static bool g_daz = false;  // --daz: MXCSR.DAZ|FTZ set while the library prints
+
 static std::string judge(uint64_t bits) {
   double d = bitsd(bits);
   // (3) write bound: the serializer reserves 33 bytes per number
@@ -92,7 +95,13 @@ static std::string judge(uint64_t bits) {
   std::unique_ptr<char[]> holder(new char[33]);
   char* out = holder.get();
 #endif
+  // the printing routine is integer arithmetic: the floating-point environment of the caller (here: denormals-are-zero and
+  // flush-to-zero, what -ffast-math start-up code or audio/ML libraries leave in MXCSR) must not change its output.
+  // Everything else (oracles, parse-back) runs in the default environment.
+  unsigned csr = _mm_getcsr();
+  if (g_daz) _mm_setcsr(csr | 0x8040u);
   int n = internal::F64toa(out, d);
+  _mm_setcsr(csr);
 #if defined(VF_CANARY)
   for (int i = 33; i < 64; i++)
     if (raw[i] != 0x5A) return "F64toa wrote beyond the 33 bytes the serializer reserves";
@@ -258,7 +267,15 @@ static void direct(const Fields& f, Case& c) {
   if (!b) c.fail("replay has no bits field");
   uint64_t bits = strtoull(b->c_str(), nullptr, 0);
   if (((bits >> 52) & 0x7ff) == 0x7ff) return;
+  bool keep = g_daz;
+  g_daz = false;
   std::string m = judge(bits);
+  if (m.empty()) {
+    g_daz = true;
+    m = judge(bits);
+    if (!m.empty()) m = "[with MXCSR.DAZ|FTZ set] " + m;
+  }
+  g_daz = keep;
   if (m.empty()) {
     char out[40];
     double d = bitsd(bits);
@@ -271,6 +288,6 @@ static void direct(const Fields& f, Case& c) {
 
 }  // namespace
 
-VF_HARNESS_MAIN((HarnessDef{"c07_ftoa", "C07", property, direct, nullptr, [](std::map<std::string, std::string>& e) {
+VF_HARNESS_MAIN((HarnessDef{"c07_ftoa", "C07", property, direct, [] { g_daz = arg_value("daz") != nullptr; }, [](std::map<std::string, std::string>& e) {
                               e["decimal_exponents_seen"] = std::to_string(g_dec_exps.size());
                             }}))
